@@ -241,58 +241,18 @@ static size_t safec_out_rev(out_fct_type out, char *buffer, size_t idx,
 }
 
 // internal itoa format
+// buf holds the len digits in reverse; sign, radix prefix, the zeros demanded
+// by the precision or the '0' flag and the padding are emitted directly, so
+// they are not limited by PRINTF_NTOA_BUFFER_SIZE.
 static size_t safec_ntoa_format(out_fct_type out, const char *funcname,
                                 char *buffer, size_t idx, size_t maxlen,
                                 char *buf, size_t len, bool negative,
                                 unsigned int base, unsigned int prec,
                                 unsigned int width, unsigned int flags) {
-    // pad leading zeros
-    if (!(flags & FLAGS_LEFT)) {
-        if (width && (flags & FLAGS_ZEROPAD) &&
-            (negative || (flags & (FLAGS_PLUS | FLAGS_SPACE)))) {
-            width--;
-        }
-        while ((len < prec) && (len < PRINTF_NTOA_BUFFER_SIZE)) {
-            buf[len++] = '0';
-        }
-        while ((flags & FLAGS_ZEROPAD) && (len < width) &&
-               (len < PRINTF_NTOA_BUFFER_SIZE)) {
-            buf[len++] = '0';
-        }
-    }
+    char prefix[3];
+    size_t plen = 0U, zeros = 0U, total, i;
+    int rc;
 
-    // handle hash
-    if (flags & FLAGS_HASH) {
-        if (!(flags & FLAGS_PRECISION) && len &&
-            ((len == prec) || (len == width))) {
-            len--;
-            if (len && (base == 16U)) {
-                len--;
-            }
-        }
-        if ((base == 16U) && !(flags & FLAGS_UPPERCASE) &&
-            (len < PRINTF_NTOA_BUFFER_SIZE)) {
-            buf[len++] = 'x';
-        } else if ((base == 16U) && (flags & FLAGS_UPPERCASE) &&
-                   (len < PRINTF_NTOA_BUFFER_SIZE)) {
-            buf[len++] = 'X';
-        } else if ((base == 2U) && (len < PRINTF_NTOA_BUFFER_SIZE)) {
-            buf[len++] = 'b';
-        }
-        if (len < PRINTF_NTOA_BUFFER_SIZE) {
-            buf[len++] = '0';
-        }
-    }
-
-    if (len < PRINTF_NTOA_BUFFER_SIZE) {
-        if (negative) {
-            buf[len++] = '-';
-        } else if (flags & FLAGS_PLUS) {
-            buf[len++] = '+'; // ignore the space if the '+' exists
-        } else if (flags & FLAGS_SPACE) {
-            buf[len++] = ' ';
-        }
-    }
     if (width > 2147483614) {
         char msg[80];
         snprintf(msg, sizeof msg, "%s: width exceeds max", funcname);
@@ -300,7 +260,68 @@ static size_t safec_ntoa_format(out_fct_type out, const char *funcname,
         return -ESLEMAX;
     }
 
-    return safec_out_rev(out, buffer, idx, maxlen, buf, len, width, flags);
+    // sign
+    if (negative) {
+        prefix[plen++] = '-';
+    } else if (flags & FLAGS_PLUS) {
+        prefix[plen++] = '+'; // ignore the space if the '+' exists
+    } else if (flags & FLAGS_SPACE) {
+        prefix[plen++] = ' ';
+    }
+    // radix prefix. the caller cleared FLAGS_HASH for a zero value
+    if (flags & FLAGS_HASH) {
+        if (base == 16U) {
+            prefix[plen++] = '0';
+            prefix[plen++] = (flags & FLAGS_UPPERCASE) ? 'X' : 'x';
+        } else if (base == 2U) {
+            prefix[plen++] = '0';
+            prefix[plen++] = 'b';
+        } else if (base == 8U && prec <= len &&
+                   (len == 0U || buf[len - 1U] != '0')) {
+            prec = (unsigned int)len + 1U; // force a leading zero
+        }
+    }
+    // minimum number of digits
+    if (len < prec) {
+        zeros = prec - len;
+    }
+    // the '0' flag fills the field, unless left-justified
+    if ((flags & FLAGS_ZEROPAD) && !(flags & FLAGS_LEFT) &&
+        plen + zeros + len < width) {
+        zeros = width - plen - len;
+    }
+    total = plen + zeros + len;
+
+    if (!(flags & FLAGS_LEFT)) {
+        for (i = total; i < width; i++) {
+            rc = out(' ', buffer, idx++, maxlen);
+            if (unlikely(rc < 0))
+                return rc;
+        }
+    }
+    for (i = 0; i < plen; i++) {
+        rc = out(prefix[i], buffer, idx++, maxlen);
+        if (unlikely(rc < 0))
+            return rc;
+    }
+    while (zeros--) {
+        rc = out('0', buffer, idx++, maxlen);
+        if (unlikely(rc < 0))
+            return rc;
+    }
+    while (len) {
+        rc = out(buf[--len], buffer, idx++, maxlen);
+        if (unlikely(rc < 0))
+            return rc;
+    }
+    if (flags & FLAGS_LEFT) {
+        for (i = total; i < width; i++) {
+            rc = out(' ', buffer, idx++, maxlen);
+            if (unlikely(rc < 0))
+                return rc;
+        }
+    }
+    return idx;
 }
 
 // internal itoa for 'long' type
@@ -312,8 +333,8 @@ static size_t safec_ntoa_long(out_fct_type out, const char *funcname,
     char buf[PRINTF_NTOA_BUFFER_SIZE];
     size_t len = 0U;
 
-    // no hash for 0 values
-    if (!value) {
+    // no hash for 0 values, but octal keeps its single 0
+    if (!value && base != 8U) {
         flags &= ~FLAGS_HASH;
     }
 
@@ -342,8 +363,8 @@ static size_t safec_ntoa_long_long(out_fct_type out, const char *funcname,
     char buf[PRINTF_NTOA_BUFFER_SIZE];
     size_t len = 0U;
 
-    // no hash for 0 values
-    if (!value) {
+    // no hash for 0 values, but octal keeps its single 0
+    if (!value && base != 8U) {
         flags &= ~FLAGS_HASH;
     }
 
